@@ -73,6 +73,10 @@ Alphabet(a) ==
                      : c \in {"ConnectAccept", "Accept", "KeepAlive", "Close"}, t \in toks}
              \cup {[k |-> "chunks", tok |-> t, ack |-> x.seq, rr |-> rr, chunks |-> <<chunk(s)>>]
                      : t \in toks, rr \in BOOLEAN, s \in {Nxt(x.ack), x.ack}}
+             \* the same control packets from a long-lived session: the acknowledged sequence number uses the high bits
+             \* of the 10-bit field (it shares its first byte with the packet flags)
+             \cup {[k |-> "ctrl", c |-> c, tok |-> good, rt |-> "-", ack |-> (x.seq + 700) % 1024, r |-> (IF c = "Close" THEN 3 ELSE -1)]
+                     : c \in {"KeepAlive", "Close"}}
 
 FeedFrom(a) ==
   /\ cnt.feeds < MaxFeeds
